@@ -259,8 +259,8 @@ Proof.
 Qed.
 
 Section GetFuel.
-  Variable gt : nat -> nat -> N -> N -> N * list cop.
-  Hypothesis gt_pure : forall x k now prev, snd (gt x k now prev) = [].
+  Variable gt : nmap -> nat -> nat -> N -> N -> N * list cop.
+  Hypothesis gt_pure : forall m x k now prev, snd (gt m x k now prev) = [].
 
   Lemma get_self_total f s x now : exists s1, get_self gt f s x now = Some s1.
   Proof. unfold get_self. destruct (valid (nd s x)); [eauto|]. rewrite gt_pure. simpl. eauto. Qed.
@@ -330,8 +330,8 @@ Section GetFuel.
 End GetFuel.
 
 Section PulseFuel.
-  Variable pl : nat -> nat -> N -> N -> list cop.
-  Hypothesis pl_pure : forall x k now st, pl x k now st = [].
+  Variable pl : nmap -> nat -> nat -> N -> N -> list cop.
+  Hypothesis pl_pure : forall m x k now st, pl m x k now st = [].
 
   Lemma pulse_self_total f s x now : exists s1, pulse_self pl f s x now = Some s1.
   Proof.
@@ -448,10 +448,10 @@ Definition fits (f : nat) (m : nmap) : Prop :=
   exists rk B N, edges rk m /\ (forall y, rk y <= B) /\ (forall y, alive (m y) = true -> y < N) /\ 2 * B + N + 4 <= f.
 
 Section StepFuel.
-  Variable gt : nat -> nat -> N -> N -> N * list cop.
-  Variable pl : nat -> nat -> N -> N -> list cop.
-  Hypothesis gt_pure : forall x k now prev, snd (gt x k now prev) = [].
-  Hypothesis pl_pure : forall x k now st, pl x k now st = [].
+  Variable gt : nmap -> nat -> nat -> N -> N -> N * list cop.
+  Variable pl : nmap -> nat -> nat -> N -> N -> list cop.
+  Hypothesis gt_pure : forall m x k now prev, snd (gt m x k now prev) = [].
+  Hypothesis pl_pure : forall m x k now st, pl m x k now st = [].
 
   Lemma top_get_total f s r now :
     Good nobody (nd s) -> fits f (nd s) ->
